@@ -610,25 +610,6 @@ Theorem profile_point_conserves : forall e index c1 c2 velocityMid fields dPhidz
 Proof. intros e index c1 c2 velocityMid fields dPhidz D Tplus Tminus T v. exact (point_conserves e index c1 c2 velocityMid fields dPhidz D Tplus Tminus T v). Qed.
 Print Assumptions profile_point_conserves.
 
-(** where the early return happens the solver reports a temperature that is NOT a root unless the
-    minimum is exactly zero: the T^{33} residual is the (non-negative) minimum of the LHS.
-    This is the part of "success => conservation" the code does not deliver by construction; the
-    harness measures the residual on every such point (hybrids sit exactly on this boundary). *)
-Theorem early_return_residual_partial : forall e index c1 c2 velocityMid fields dPhidz D Tplus Tminus T v,
-  let Tout30 := fst (deltaToTmunu e index fields velocityMid D) in
-  let Tout33 := snd (deltaToTmunu e index fields velocityMid D) in
-  let F := fun T : R => temperatureProfileEqLHS e fields dPhidz T (c1 - Tout30) (c2 - Tout33) in
-  let tmin := minimize_bounded e F 0 (2 * Rmax Tplus Tminus) in
-  findPlasmaProfilePoint e index c1 c2 velocityMid fields dPhidz D Tplus Tminus = Some (T, v) ->
-  0 <= F tmin -> T = tmin /\ v = plasmaVelocity e fields T (c1 - Tout30).
-Proof.
-  intros e index c1 c2 velocityMid fields dPhidz D Tplus Tminus T v. cbv zeta. intros H Hpos.
-  destruct (point_cases e index c1 c2 velocityMid fields dPhidz D Tplus Tminus) as [T' [v' [H' O]]].
-  rewrite H in H'. injection H' as <- <-.
-  destruct O as [_ A B | N _ _ | ? ? ? ? N _ _ _ _ _ _ _]; [split; assumption | | ]; exfalso; cbv beta in Hpos, N; lra.
-Qed.
-Print Assumptions early_return_residual_partial.
-
 Theorem branch_rule : forall e index c1 c2 velocityMid fields dPhidz D Tplus Tminus T v,
   let Tout30 := fst (deltaToTmunu e index fields velocityMid D) in
   let Tout33 := snd (deltaToTmunu e index fields velocityMid D) in
@@ -690,6 +671,51 @@ Proof.
   exists Tp, vp, ok. rewrite <- run_is_generated. split; [exact H1|]. split; [exact H2|]. split; [exact H3|exact H4].
 Qed.
 Print Assumptions profile_success_flag.
+
+(** REFUTED as stated: "the solver reports success => T^{33} is reproduced".  Witness (replayed on the
+    implementation by the harness): radiation V = -T^4 (w = 4 T^4), no moments, c1 = -1, c2 = 1/4.
+    The LHS is positive everywhere, the point solver returns the minimiser's output (here any
+    value, 1), the loop keeps the success flag, and the T^{33} residual is LHS(1) > 0. *)
+Theorem success_implies_T33_refuted :
+  exists e N c1 c2 velocityMid fields dPhidz D Tplus Tminus Tp vp,
+    findPlasmaProfile e N c1 c2 velocityMid fields dPhidz D Tplus Tminus = Some (Tp, vp, true) /\
+    (0 < N)%nat /\ 0 < Tp 0%nat /\ 0 < - Tp 0%nat * derivT e (fields 0%nat) (Tp 0%nat) /\
+    c1 - fst (deltaToTmunu e 0 (fields 0%nat) velocityMid D) <> 0 /\
+    1 / 2 * sum_list (map (fun x : R => x ^ 2) (dPhidz 0%nat)) - evaluate e (fields 0%nat) (Tp 0%nat)
+      + (- Tp 0%nat * derivT e (fields 0%nat) (Tp 0%nat)) * gammaSq (vp 0%nat) * vp 0%nat ^ 2
+      + snd (deltaToTmunu e 0 (fields 0%nat) velocityMid D) - c2 > 0.
+Proof.
+  set (e := mk_env (fun _ T => - 4 * T ^ 3) (fun _ T => - T ^ 4) 1 [] (fun _ _ _ => 1) (fun _ a _ => a)).
+  set (D := mk_Deltas (fun _ _ => 0) (fun _ _ => 0) (fun _ _ => 0) (fun _ _ => 0)).
+  assert (Hd : forall f v, deltaToTmunu e 0 f v D = (0, 0)).
+  { intros f v. apply deltaToTmunu_zero. intro i. repeat split; reflexivity. }
+  assert (HF : forall T, temperatureProfileEqLHS e [] [] T (-1 - 0) (1 / 4 - 0)
+                         = T ^ 4 + (sqrt (4 + 16 * T ^ 8) - 4 * T ^ 4) / 2 - 1 / 4).
+  { intro T. rewrite LHS_form. unfold kinetic, enthalpy. cbn [map derivT evaluate e]. rewrite sum_list_nil.
+    replace (4 * (-1 - 0) ^ 2 + (- T * (- 4 * T ^ 3)) ^ 2) with (4 + 16 * T ^ 8) by ring. field. }
+  assert (Hs : 4 <= sqrt (4 + 16 * 1 ^ 8)).
+  { replace 4 with (sqrt 16) at 1 by (replace 16 with (4 * 4) by ring; apply sqrt_square; lra).
+    apply sqrt_le_1; lra. }
+  assert (Hpt : findPlasmaProfilePoint e 0 (-1) (1 / 4) 0 [] [] D 1 1 = Some (1, plasmaVelocity e [] 1 (-1 - 0))).
+  { pose proof (no_root_returns_minimum e 0 (-1) (1 / 4) 0 [] [] D 1 1) as H. cbv zeta in H.
+    rewrite (Hd [] 0) in H. cbn [fst snd] in H. cbn [minimize_bounded e] in H. apply H.
+    rewrite HF. lra. }
+  exists e, 1%nat, (-1), (1 / 4), 0, (fun _ => []), (fun _ => []), D, 1, 1,
+         (upd (fun _ => 0) 0 1), (upd (fun _ => 0) 0 (plasmaVelocity e [] 1 (-1 - 0))).
+  split.
+  { unfold findPlasmaProfile. cbn [seq fold_left]. unfold findPlasmaProfile_step. rewrite Hpt.
+    destruct (Rlt_dec 0 1); [reflexivity|lra]. }
+  rewrite !upd_same, (Hd [] 0). cbn [fst snd]. split; [lia|]. split; [lra|].
+  assert (Hw : 0 < enthalpy e [] 1) by (unfold enthalpy; cbn [derivT e]; lra).
+  split; [exact Hw|]. split; [lra|].
+  pose proof (T33_residual e [] [] 1 (-1 - 0) (1 / 4 - 0) Hw ltac:(lra)) as Res. cbv zeta in Res.
+  unfold kinetic, enthalpy in Res.
+  replace (1 / 2 * sum_list (map (fun x : R => x ^ 2) []) - evaluate e [] 1 +
+           - (1) * derivT e [] 1 * gammaSq (plasmaVelocity e [] 1 (-1 - 0)) * plasmaVelocity e [] 1 (-1 - 0) ^ 2 + 0 - 1 / 4)
+    with (temperatureProfileEqLHS e [] [] 1 (-1 - 0) (1 / 4 - 0)) by (rewrite <- Res; ring).
+  rewrite HF. lra.
+Qed.
+Print Assumptions success_implies_T33_refuted.
 
 (** non-vacuity: an ideal gas (V = -a T^4, w = 4 a T^4) with one particle satisfies the hypotheses
     of the conservation theorems at T = 1, s1 = -1 *)
